@@ -25,6 +25,18 @@ CHECKS = {
    technique="TLA+ spec with explicit runtime dispatch/run steps (Deadline.tla) + TLC MC + tour replay with a fake runtime timer in virtual time; traces validated by TLC",
    text="TLC checks NeverEarly / FiresWhenDue on Deadline.tla for all Set/advance/dispatch/run orders with up to 3 outstanding callbacks; every transition is replayed on the real Deadline inside synctest bubbles with a harness timer in the unexported timer field (dispatch and callback execution are explicit steps, so stale callbacks racing Set are enumerated), plus public-API histories with real timers; Done/Err/Deadline/channel identity after every step are validated by TLC.",
    note="virtual time from testing/synctest (go1.26.8, asynctimerchan=0); fake-timer binding names unexported identifiers, falls back to public API if they disappear"),
+ "C15": dict(engine="tlc-trace", design_ref="DESIGN.md §4 C15",
+   technique="TLA+ conformance automaton (TBF.tla: virtual bucket never negative <=> burst+rate bound on every sub-interval) + TLC MC of the transcribed algorithm + virtual-time arrival plans on the real filter validated by TLC",
+   text="TLC checks that the token-bucket algorithm (as transcribed from tbf.go) never makes a departure the automaton forbids, for all small arrival/option-change patterns; seeded arrival plans (idle gaps to 10^7 ms, bursts far above the rate, sizes 0..2x burst, run-time rate/burst changes) run on the real TokenBucketFilter in exact virtual time; every arrival/departure is validated by TLC: burst+rate bound over all sub-intervals, FIFO, no duplicate, unmodified, discard only when the byte queue is full.",
+   note="virtual time via testing/synctest; integer-exact because rates are multiples of 8000 bit/s (1 byte slack for float arithmetic); lowered rate/burst take effect within a 1 s grace, raised ones immediately (lenient reading)"),
+ "C16": dict(engine="tlc-trace", design_ref="DESIGN.md §4 C16",
+   technique="TLA+ spec (LossFilter.tla) + TLC MC + 10 000-datagram streams per chance through the real filter validated by TLC, integer 7-sigma monitor for the drop fraction",
+   text="Every datagram handed to the real LossFilter is logged with what the next NIC received during the call; TLC validates: chance<=0 forwards all, >=100 none, never anything but the datagram itself at most once (in-order subsequence, unmodified), and at the end of each stream the drop count within 7 sigma of chance/100.",
+   note="the probability clause is a statistical monitor, not a proof; global math/rand is not controlled"),
+ "C20": dict(engine="tlc-trace", design_ref="DESIGN.md §4 C20",
+   technique="TLA+ transcription of XorBytes (Xor.tla, Bitwise) ; TLC enumerates the structural case space (lengths x offsets x aliasing) and validates every real call's full before/after contents",
+   text="TLC enumerates 32 076 (quick) / 221 952 (thorough) structural cases: len(a), len(b) in 0..17 (0..33), start offsets of the three slices, dst==a, dst==b, disjoint, slack in dst; each is executed on the real XorBytes with seeded contents inside guard-padded arrays plus random long inputs; TLC recomputes the expected bytes and compares return value, dst, a, b; guard bytes checked by the harness.",
+   note="only the crypto/subtle-backed build of XorBytes exists on this toolchain; contents are sampled, structure is exhaustive within the bounds"),
 }
 
 def main():
